@@ -357,6 +357,15 @@ Theorem C07_store_autosave_exact :
 Proof. exact autosave_history_exact. Qed.
 Print Assumptions C07_store_autosave_exact.
 
+(* [arun]'s operation language includes the Push of a manifest whose bytes do not decode
+   (ABadPush: storage.Push, graph.Index fails, the blob is removed again): C07_store_autosave_exact
+   and C07_store_refines_spec cover histories containing it; it leaves no trace: *)
+Example C07_store_bad_push_example :
+  let ops1 := [AOp (PPush 0%N); AOp (PPush 2%N); ABadPush 9%N; AOp (PPush 3%N); AOp PReopen] in
+  let ops2 := [AOp (PPush 0%N); AOp (PPush 2%N); AOp (PPush 3%N); AOp PReopen] in
+  arun (ctab pf_ct) pf_isman 50 empty_astore ops1 = arun (ctab pf_ct) pf_isman 50 empty_astore ops2.
+Proof. exact bad_push_example. Qed.
+
 (* the side condition is needed (and is the documented duty of the caller): AutoSaveIndex off,
    push, reopen without SaveIndex: the pushed manifest is on disk and not indexed *)
 Theorem C07_store_unsaved_reopen_refuted :
